@@ -60,6 +60,8 @@ def r_ops():
     return ops
 
 
+from ..eexpr import expr_jobs
+
 def make_jobs(ctx):
     jobs = []
     # ---- layer R: both variants of the header
@@ -87,6 +89,7 @@ def make_jobs(ctx):
             if tag == "Gf1":
                 continue  # multi-file output is exercised by C09
             jobs += pm2.jobs(ctx, ["wasm_int.h", "libm_markers.h"], tag, opts=opts)
+    jobs += expr_jobs(ctx, ["unary", "prefix", "infix", "infix_assign", "signed_infix", "shl", "shr_u", "shr_s"])
     return jobs
 
 
